@@ -35,8 +35,8 @@ BUDGET = {"quick": (260, 4), "thorough": (64000, 16)}
 REQUIRED = ["gens>=3", "alter", "restore", "nested", "nested_depth>=3", "sf", "new_format_added", "failed_recorded", "nested_history_begun_later", "file_appears_later", "sf_path_not_normalised"]
 CLI = refhash.CLI_FORMATS
 
-FILES = ["take\\1.bin", "a.txt", "sub/a.txt", "cafe\u0301.txt", "sub2/b.bin", "sub/b.bin", "sub/deep/c c.txt", "sub/deep/er/est/d.mov", "sub/\u212bngstrom 100%.mov", "sub/..two dots"]
-BASE = {"take\\1.bin": "a backslash is an ordinary character here", "sub/..two dots": "leading dots", "cafe\u0301.txt": "decomposed name", "sub/\u212bngstrom 100%.mov": "singleton + percent", "a.txt": "alpha", "sub/a.txt": "same relative path in the nested history", "sub2/b.bin": "beside the nested root", "sub/b.bin": ["00ff10", 3000],
+FILES = ["sub/big take.bin", "take\\1.bin", "a.txt", "sub/a.txt", "cafe\u0301.txt", "sub2/b.bin", "sub/b.bin", "sub/deep/c c.txt", "sub/deep/er/est/d.mov", "sub/\u212bngstrom 100%.mov", "sub/..two dots"]
+BASE = {"sub/big take.bin": ["5ac3", (1 << 20) + 4099], "take\\1.bin": "a backslash is an ordinary character here", "sub/..two dots": "leading dots", "cafe\u0301.txt": "decomposed name", "sub/\u212bngstrom 100%.mov": "singleton + percent", "a.txt": "alpha", "sub/a.txt": "same relative path in the nested history", "sub2/b.bin": "beside the nested root", "sub/b.bin": ["00ff10", 3000],
         "sub/deep/c c.txt": "", "sub/deep/er/est/d.mov": "deepest"}
 ROOTS = ["sub", "sub/deep", "sub/deep/er", "sub/deep/er/est"]
 
